@@ -909,17 +909,17 @@ def check_rsp(A4, variant, solver, tol, block, seed, max_iter=400):
     T4 = draw_sketch(n if col else m, 8)
     E = (T4 - rt.qmm(X4, rt.qmm(A4, T4))) if col else (T4 - rt.qmm(A4, rt.qmm(X4, T4)))
     proxy = rt.fro(E) / rt.fro(T4)
-    if hist and abs(hist[-1] - proxy) > 1e-9 * max(1.0, proxy):
+    if hist and not (abs(hist[-1] - proxy) <= 1e-9 * max(1.0, proxy)):
         return {"what": "last history entry is not the proxy residual of the returned X", "reported": hist[-1], "recomputed": proxy}
     if info["converged"]:
         k = n if col else m
         true = rt.fro((rt.qmm(X4, A4) if col else rt.qmm(A4, X4)) - rt.eye4(k)) / np.sqrt(k)
-        if true > C_SMALL * tol:
+        if not (true <= C_SMALL * tol):
             return {"what": "converged=True but the true residual is not within a small multiple of tol", "true": true, "tol": tol, "proxy": hist[-1]}
         P4 = rt.pinv4(A4)
         sig = rt.singular_values(A4)
         bound = C_SMALL * tol * np.sqrt(k) / sig[-1] + (1e-6 if solver == "spd" or not col else 1e-9) / sig[-1]
-        if rt.fro(X4 - P4) > bound:
+        if not (rt.fro(X4 - P4) <= bound):
             return {"what": "converged=True but X is not the Moore-Penrose inverse to cond-scaled accuracy", "err": rt.fro(X4 - P4), "bound": bound}
     return None
 
@@ -937,15 +937,15 @@ def check_hybrid(A4, p, T, r, tol, solver, seed, max_iter=300):
     np.random.seed(seed)
     T4 = draw_sketch(n, min(6, n))
     proxy = rt.fro(T4 - rt.qmm(X4, rt.qmm(A4, T4))) / rt.fro(T4)
-    if hist and abs(hist[-1] - proxy) > 1e-9 * max(1.0, proxy):
+    if hist and not (abs(hist[-1] - proxy) <= 1e-9 * max(1.0, proxy)):
         return {"what": "last history entry is not the proxy residual of the returned X", "reported": hist[-1], "recomputed": proxy}
     if info["converged"]:
         true = rt.fro(rt.qmm(X4, A4) - rt.eye4(n)) / np.sqrt(n)
         # the hybrid's test sketch is square (min(6,n) = n columns) for n <= 6: the proxy then bounds the true residual through cond(Pi)
-        if true > (C_SMALL if n > 6 else 50.0) * tol:
+        if not (true <= (C_SMALL if n > 6 else 50.0) * tol):
             return {"what": "converged=True but the true residual is not within a small multiple of tol", "true": true, "tol": tol, "proxy": hist[-1]}
         sig = rt.singular_values(A4)
-        if rt.fro(X4 - rt.pinv4(A4)) > (50.0 * tol * np.sqrt(n) + (1e-6 if solver == "spd" else 1e-9)) / sig[-1]:
+        if not (rt.fro(X4 - rt.pinv4(A4)) <= (50.0 * tol * np.sqrt(n) + (1e-6 if solver == "spd" else 1e-9)) / sig[-1]):
             return {"what": "converged=True but X is not the Moore-Penrose inverse", "err": rt.fro(X4 - rt.pinv4(A4))}
     return None
 
@@ -961,7 +961,7 @@ def check_hyperpower(A4, X4, p):
     for _ in range(p):
         Fp = rt.qmm(Fp, F)
     err = rt.fro(rt.eye4(n) - rt.qmm(Xn, A4) - Fp)
-    if err > 1e-9 * max(1.0, rt.fro(Fp)):
+    if not (err <= 1e-9 * max(1.0, rt.fro(Fp))):
         return {"what": "hyperpower step: I - X'A != (I - XA)^p", "err": err, "p": p}
     return None
 
@@ -979,17 +979,17 @@ def check_cgne(A4, tol, max_iter, must_converge, prec_rank=0, seed=0):
     if bool(info["converged"]) != bool(hist and hist[-1] <= tol):
         return {"what": "converged flag is not (last history entry <= tol)", "converged": info["converged"]}
     true = rt.fro(rt.qmm(X4, A4) - rt.eye4(n)) / np.sqrt(n)
-    if hist and abs(hist[-1] - true) > 1e-8 * max(1.0, true) + 1e-12:
+    if hist and not (abs(hist[-1] - true) <= 1e-8 * max(1.0, true) + 1e-12):
         return {"what": "last history entry is not the true residual of the returned X", "reported": hist[-1], "true": true}
     if info["converged"]:
-        if true > 2 * tol + 1e-12:
+        if not (true <= 2 * tol + 1e-12):
             return {"what": "converged=True but true residual above tol", "true": true, "tol": tol}
         sig = rt.singular_values(A4)
-        if rt.fro(X4 - rt.pinv4(A4)) > (4 * tol * np.sqrt(n) + 1e-9) / sig[-1]:
+        if not (rt.fro(X4 - rt.pinv4(A4)) <= (4 * tol * np.sqrt(n) + 1e-9) / sig[-1]):
             return {"what": "converged=True but X is not the Moore-Penrose inverse", "err": rt.fro(X4 - rt.pinv4(A4))}
     if prec_rank == 0:
         for a, b in zip(hist, hist[1:]):
-            if b > a * (1 + 1e-9) + 1e-13:
+            if not (b <= a * (1 + 1e-9) + 1e-13):
                 return {"what": "residual history increases", "pair": [a, b]}
         if must_converge and not info["converged"]:
             return {"what": "well-conditioned input not solved within the budget", "last": hist[-1] if hist else None, "budget": max_iter}
